@@ -235,6 +235,12 @@ def monitor_c08(scn, impl):
                     if exc < -1e-6:
                         return "session %d got %r although its upper bound %r is feasible" % (sid, r, ub)
             else:
+                if r != 0:
+                    test[i] = r
+                    exc_r, _ = feasible_exact(inf, test)
+                    if exc_r > 1e-9 and abs(r - lbs[sid]) > 1e-12:
+                        return ("session %d got level %r which is infeasible (by %.4g A) with the pilots already granted to "
+                                "higher-priority sessions; no level fits, it should get 0" % (sid, r, exc_r))
                 higher = [a for a in inf["allow"][i] if lbs[sid] <= a <= ub and a > r + 1e-9]
                 for a in higher:
                     test[i] = a
@@ -860,6 +866,10 @@ def gen_mfr(rng, tier):
     ub = float(rng.choice([inf["maxp"][idx], 32.0, 16.5, max(sched[idx], 1.0) * 2, sched[idx]]))
     levels = sorted(set(rng.choice(sc.FINITE_SETS[:6]) + [sched[idx]])) if rng.random() < 0.5 else list(rng.choice(sc.FINITE_SETS[:6]))
     levels = [a for a in levels if a <= ub] or [0.0]
+    if rng.random() < 0.35:
+        pos = [a for a in levels if a > max(sched[idx], 0.0)]
+        if pos:
+            levels = pos                       # no 0, lowest candidate above what the station holds
     return dict(infra=inf, idx=idx, sched=sched, cont=cont, eps=eps, lb=lb, ub=ub, levels=[float(a) for a in levels],
                 period=scn["period"], now=scn["now"])
 
